@@ -558,3 +558,108 @@ class BoolFlow:
         for i in range(0, si):
             self._transfer(st, stmts[i])
         return self._val(st, op)
+
+
+# ---------------------------------------------------------------------------------------------
+# Expression trees: the *shape* of an arithmetic value (provenance roots alone cannot tell
+# ((t + d) / p) * p from (t / p) * p + (d / p) * p).
+
+ARITH_CALLS = {
+    "wrapping_add": "Add", "wrapping_sub": "Sub", "wrapping_mul": "Mul",
+    "saturating_add": "Add", "saturating_sub": "Sub", "saturating_mul": "Mul",
+    "checked_add": "Add", "checked_sub": "Sub", "checked_mul": "Mul", "checked_div": "Div", "checked_rem": "Rem",
+    "overflowing_add": "Add", "overflowing_sub": "Sub",
+    "div_ceil": "DivCeil", "rem_euclid": "Rem", "div_euclid": "Div", "next_multiple_of": "NextMultipleOf",
+}
+_WITH_OVERFLOW = {"AddWithOverflow": "Add", "SubWithOverflow": "Sub", "MulWithOverflow": "Mul"}
+_ARITH_BIN = {"Add", "Sub", "Mul", "Div", "Rem", "Shl", "Shr", "BitAnd", "BitOr", "BitXor", "AddUnchecked", "SubUnchecked", "MulUnchecked"}
+
+
+def expr_tree(body, op, prov=None, depth=12):
+    """Nested tuples (op, lhs, rhs) for arithmetic, ("leaf", frozenset(roots)) otherwise.  Copies, casts,
+    `?`/From conversions and the `.0` of checked arithmetic are looked through; a local with several
+    reaching definitions is a leaf (its roots are the union)."""
+    from .core import Prov
+    prov = prov or Prov(body)
+
+    def leaf(o):
+        return ("leaf", frozenset(prov.of_operand(o)))
+
+    def go(o, dep):
+        c = const_int(o)
+        if c is not None:
+            return ("const", c)
+        pl = op_place(o)
+        if pl is None or dep <= 0:
+            return leaf(o)
+        l = pl["l"]
+        proj = pl["p"]
+        defs = body.defs().get(l, [])
+        if len(defs) != 1:
+            return leaf(o)
+        bi, si, kind, payload = defs[0]
+        if kind == "call":
+            c = payload
+            nm = (c.decl_s or "").split("::")[-1]
+            if nm in ARITH_CALLS and len(c.args) >= 2:
+                return (ARITH_CALLS[nm], go(c.args[0], dep - 1), go(c.args[1], dep - 1))
+            if nm in ("from", "into", "try_from", "try_into", "branch", "unwrap", "unwrap_or_default", "get", "as_nanos", "clone") and c.args:
+                return go(c.args[0], dep - 1)
+            return leaf(o)
+        if kind != "assign":
+            return leaf(o)
+        rv = payload["rv"]
+        k = rv["k"]
+        if k == "bin":
+            opn = rv["op"]
+            if opn in _WITH_OVERFLOW:
+                # only meaningful through the `.0` projection
+                if proj and isinstance(proj[0], dict) and proj[0].get("f") == 0:
+                    return (_WITH_OVERFLOW[opn], go(rv["a"][0], dep - 1), go(rv["a"][1], dep - 1))
+                return leaf(o)
+            if opn in _ARITH_BIN and not proj:
+                return (opn.replace("Unchecked", ""), go(rv["a"][0], dep - 1), go(rv["a"][1], dep - 1))
+            return leaf(o)
+        if k in ("use", "cast") and rv.get("a"):
+            src = rv["a"][0]
+            sp = op_place(src)
+            if sp is not None and proj:
+                # carry our projection over to the source place
+                src = {"copy": {"l": sp["l"], "p": list(sp["p"]) + list(proj)}}
+            elif sp is not None and sp["p"]:
+                # e.g. (_x as Continue).0 or a tuple field: look through enum-payload / field-0 projections of temporaries
+                base = {"copy": {"l": sp["l"], "p": []}}
+                inner = go(base, dep - 1) if all(isinstance(x, dict) and ("dc" in x or x.get("f") == 0 or x.get("k") == "tuple") for x in sp["p"]) else None
+                if inner is not None and inner[0] != "leaf":
+                    return inner
+                if sp["p"] and isinstance(sp["p"][0], dict) and sp["p"][0].get("f") == 0:
+                    return go(src, dep - 1) if False else _through_overflow(src, dep)
+                return leaf(o)
+            return go(src, dep - 1)
+        return leaf(o)
+
+    def _through_overflow(src, dep):
+        sp = op_place(src)
+        defs = body.defs().get(sp["l"], [])
+        if len(defs) == 1 and defs[0][2] == "assign" and defs[0][3]["rv"]["k"] == "bin" and defs[0][3]["rv"]["op"] in _WITH_OVERFLOW:
+            rv = defs[0][3]["rv"]
+            return (_WITH_OVERFLOW[rv["op"]], go(rv["a"][0], dep - 1), go(rv["a"][1], dep - 1))
+        return leaf(src)
+
+    return go(op, depth)
+
+
+def tree_str(t):
+    if t[0] == "leaf":
+        names = sorted({str(r[-1]) if r[0] in ("arg", "upvar", "field") else (r[1].split("::")[-1] if r[0] in ("call", "await", "via") and isinstance(r[1], str) else r[0]) for r in t[1]})
+        return "{" + ",".join(names[:4]) + "}"
+    if t[0] == "const":
+        return str(t[1])
+    return "%s(%s, %s)" % (t[0], tree_str(t[1]), tree_str(t[2]))
+
+
+def tree_ops(t):
+    """Multiset (list) of operator names in the tree."""
+    if t[0] in ("leaf", "const"):
+        return []
+    return [t[0]] + tree_ops(t[1]) + tree_ops(t[2])
